@@ -1,12 +1,607 @@
 package stableopt
 
 import (
+	"bytes"
+	"fmt"
+	"strings"
 	"testing"
+	"unicode/utf8"
 
+	"google.golang.org/protobuf/proto"
+	"google.golang.org/protobuf/reflect/protoreflect"
+	"google.golang.org/protobuf/types/descriptorpb"
+
+	"github.com/bufbuild/protocompile"
+	"github.com/bufbuild/protocompile/internal/verifmon/gen"
 	"github.com/bufbuild/protocompile/internal/verifmon/vlib"
 )
+
+// C23 — source code info is well-formed in every mode.
+
+type sciMode struct {
+	name string
+	mode protocompile.SourceInfoMode
+}
+
+var sciModes = []sciMode{
+	{"standard", protocompile.SourceInfoStandard},
+	{"extra-comments", protocompile.SourceInfoStandard | protocompile.SourceInfoExtraComments},
+	{"extra-option-locations", protocompile.SourceInfoStandard | protocompile.SourceInfoExtraOptionLocations},
+	{"extra-comments+option-locations", protocompile.SourceInfoStandard | protocompile.SourceInfoExtraComments | protocompile.SourceInfoExtraOptionLocations},
+}
 
 func TestC23(t *testing.T) {
 	r := vlib.Start(t, "C23")
 	defer r.Finish()
+	r.Extra("rule", "accepted generated models (custom options on every element kind) rendered with random styles, then comments with unique ids, blank lines and tabs injected between tokens by a tokenizer-based injector "+
+		"(line/block/multi-line comments, detached groups, trailing comments, comments before closing symbols, header/EOF comments); sources that no longer compile to the same descriptor are skipped. Each file is compiled in the four "+
+		"SourceInfoMode combinations; one evaluation = one (file, mode) whose every location is checked (path resolves, span in file, comment lines from the source) plus one per mode relation. "+
+		"non-trivial = the file has >=1 comment in its source info and >=1 location inside an options message; distinct = (source text, mode)")
+	r.Extra("assumptions", []string{
+		"a path `names an element that exists` iff every field number is a field (or, inside options, an extension known to the model's schema) of the message reached so far, every index is in range, and the final field is populated; the one recorded exception is path [12] (syntax) of a proto2 file, where protoc too emits the location while leaving the field unset",
+		"columns are counted like descriptor.proto/protoc do: zero-based, a tab advances to the next multiple of 8, one column per UTF-8 encoded rune",
+		"the index of a map entry in a path cannot be tied to a key: a path through a map value resolves if it resolves in some entry",
+	})
+	n := r.N(220, 3500)
+	r.Par(n, func(i int) {
+		id := fmt.Sprintf("g/%d", i)
+		if !r.Want(id) {
+			return
+		}
+		rng := r.Rng(id)
+		cfg := gen.StdConfig(rng, i)
+		cfg.CustomOptions = i%5 != 4
+		m, err := gen.GenModel(rng, cfg)
+		if err != nil {
+			r.Class("g:model-not-decided (refused by protodesc)")
+			return
+		}
+		for v := 0; v < 2; v++ {
+			vid := fmt.Sprintf("%s/v%d", id, v)
+			if !r.Want(vid) {
+				continue
+			}
+			vr := r.Rng(vid)
+			src, err := m.Sources(styleFn(vr, "st"))
+			if err != nil {
+				r.Inconclusive("render: " + err.Error())
+				continue
+			}
+			base := gen.Compile(src, m.Names(), gen.Opts{})
+			if !base.OK() {
+				r.Class("g:rejected (decided by C01)")
+				continue
+			}
+			baseProtos := gen.AllProtos(base.Files)
+			// inject
+			inj := map[string]string{}
+			density := []float64{0.05, 0.15, 0.35}[vr.Intn(3)]
+			okInj := true
+			for k, name := range m.Names() {
+				in := &injector{rng: vr.Fork("inj" + name), tag: fmt.Sprintf("f%d", k)}
+				s, ok := in.inject(src[name], density)
+				if !ok {
+					okInj = false
+					break
+				}
+				inj[name] = s
+			}
+			if !okInj {
+				r.Class("g:source not tokenizable by the injector (skipped)")
+				continue
+			}
+			outs := make([]map[string]*descriptorpb.FileDescriptorProto, len(sciModes))
+			bad := false
+			for k, md := range sciModes {
+				out := gen.Compile(inj, m.Names(), gen.Opts{SourceInfo: md.mode})
+				if out.Panic != nil {
+					r.Eval(gen.SrcKey(inj) + md.name)
+					r.Violation("c23.panic", "panic generating source info ("+md.name+"): "+vlib.PanicSite(fmt.Sprint(out.Panic)), vid, map[string]any{"sources": inj, "panic": trunc(fmt.Sprint(out.Panic), 4000)})
+					bad = true
+					break
+				}
+				if !out.OK() {
+					r.Class("g:injected source does not compile (skipped; C11/C12 decide)")
+					r.Extra("injected_rejected_example", map[string]any{"errors": out.ErrSummary(), "case": vid})
+					bad = true
+					break
+				}
+				outs[k] = gen.AllProtos(out.Files)
+			}
+			if bad {
+				continue
+			}
+			for _, f := range m.Files {
+				name := f.GetName()
+				fid := vid + "/" + name
+				if !r.Want(fid) {
+					continue
+				}
+				// comments and layout must not change the descriptor
+				a := proto.Clone(outs[0][name]).(*descriptorpb.FileDescriptorProto)
+				a.SourceCodeInfo = nil
+				if !bytes.Equal(gen.DetBytes(a), gen.DetBytes(baseProtos[name])) {
+					r.Class("g:injection changed the descriptor (skipped; not decided here)")
+					continue
+				}
+				dec, err := decode(a, m.Types)
+				if err != nil {
+					r.Inconclusive("decode: " + err.Error())
+					continue
+				}
+				text := inj[name]
+				st := newSrcText(text)
+				var locs [4][]*descriptorpb.SourceCodeInfo_Location
+				for k, md := range sciModes {
+					locs[k] = outs[k][name].GetSourceCodeInfo().GetLocation()
+					c23WellFormed(r, fid+"/"+md.name, md.name, dec, m.Types, st, locs[k], text)
+				}
+				c23CommentsOnly(r, fid, "extra-comments vs standard", locs[0], locs[1], text)
+				c23CommentsOnly(r, fid, "extra-comments+option-locations vs extra-option-locations", locs[2], locs[3], text)
+				c23LocationsOnly(r, fid, "extra-option-locations vs standard", dec, m.Types, locs[0], locs[2], text)
+				c23LocationsOnly(r, fid, "extra-comments+option-locations vs extra-comments", dec, m.Types, locs[1], locs[3], text)
+			}
+			if i == 2 && v == 0 {
+				r.Sample("injected-source", trunc(inj[m.Names()[len(m.Names())-1]], 2500))
+			}
+		}
+	})
+}
+
+// ---------------------------------------------------------------------------
+// path interpreter
+// ---------------------------------------------------------------------------
+
+type pathInfo struct {
+	err      string
+	optsAt   int // length of the prefix that is the path of an options message; -1 if the path does not enter one
+	unsetEnd bool
+}
+
+// resolvePath interprets path over the decoded file descriptor proto.
+func resolvePath(fd *descriptorpb.FileDescriptorProto, types gen.TypeResolver, path []int32) pathInfo {
+	info := pathInfo{optsAt: -1}
+	insideValue := false // below the top level of an options message
+	var walk func(m protoreflect.Message, i int) string
+	walk = func(m protoreflect.Message, i int) string {
+		if i == len(path) {
+			return ""
+		}
+		md := m.Descriptor()
+		n := path[i]
+		fld := md.Fields().ByNumber(protoreflect.FieldNumber(n))
+		if fld == nil && md.ExtensionRanges().Len() > 0 && n > 0 {
+			if xt, err := types.FindExtensionByNumber(md.FullName(), protoreflect.FieldNumber(n)); err == nil {
+				fld = xt.TypeDescriptor()
+			}
+		}
+		if fld == nil {
+			return fmt.Sprintf("component %d: %s has no field or known extension with number %d", i, md.FullName(), n)
+		}
+		i++
+		if fld.Message() != nil && isOptionsMsg(fld.Message()) && !fld.IsList() && info.optsAt < 0 && !isOptionsMsg(md) {
+			info.optsAt = i
+		}
+		switch {
+		case fld.IsMap():
+			mp := m.Get(fld).Map()
+			if i == len(path) {
+				if mp.Len() == 0 {
+					return fmt.Sprintf("map field %s is empty", fld.FullName())
+				}
+				return ""
+			}
+			idx := path[i]
+			i++
+			if idx < 0 || int(idx) >= mp.Len() {
+				return fmt.Sprintf("component %d: index %d out of range for map %s with %d entries", i-1, idx, fld.FullName(), mp.Len())
+			}
+			if i == len(path) {
+				return ""
+			}
+			sub := path[i]
+			i++
+			switch sub {
+			case 1:
+				if i != len(path) {
+					return fmt.Sprintf("component %d: path continues below a map key", i)
+				}
+				return ""
+			case 2:
+				if i == len(path) {
+					return ""
+				}
+				if fld.MapValue().Message() == nil {
+					return fmt.Sprintf("component %d: path continues below a scalar map value", i)
+				}
+				if isOptionsMsg(md) {
+					insideValue = true
+				}
+				first := ""
+				ok := false
+				mp.Range(func(_ protoreflect.MapKey, v protoreflect.Value) bool {
+					e := walk(v.Message(), i)
+					if e == "" {
+						ok = true
+						return false
+					}
+					if first == "" {
+						first = e
+					}
+					return true
+				})
+				if ok {
+					return ""
+				}
+				return "in no map entry: " + first
+			}
+			return fmt.Sprintf("component %d: %d is neither key (1) nor value (2) of a map entry", i-1, sub)
+		case fld.IsList():
+			l := m.Get(fld).List()
+			if i == len(path) {
+				if l.Len() == 0 {
+					return fmt.Sprintf("repeated field %s is empty", fld.FullName())
+				}
+				return ""
+			}
+			idx := path[i]
+			i++
+			if idx < 0 || int(idx) >= l.Len() {
+				return fmt.Sprintf("component %d: index %d out of range for %s with %d elements", i-1, idx, fld.FullName(), l.Len())
+			}
+			if fld.Message() == nil {
+				if i != len(path) {
+					return fmt.Sprintf("component %d: path continues below a scalar element", i)
+				}
+				return ""
+			}
+			if isOptionsMsg(md) {
+				insideValue = true
+			}
+			return walk(l.Get(int(idx)).Message(), i)
+		case fld.Message() != nil:
+			if !m.Has(fld) {
+				if i == len(path) && !isOptionsMsg(md) && !insideValue {
+					// the path ends at a singular field of a descriptor message that is not populated (protoc does the
+					// same for `[default = 1]`: location for field.options, no options message): observed, not refuted
+					info.unsetEnd = true
+					return ""
+				}
+				return fmt.Sprintf("component %d: message field %s is not set", i-1, fld.FullName())
+			}
+			if isOptionsMsg(md) {
+				insideValue = true
+			}
+			return walk(m.Get(fld).Message(), i)
+		default:
+			if i != len(path) {
+				return fmt.Sprintf("component %d: path continues below scalar field %s", i, fld.FullName())
+			}
+			if !m.Has(fld) {
+				info.unsetEnd = true
+				if !isOptionsMsg(md) && !insideValue {
+					return ""
+				}
+				return fmt.Sprintf("option field %s is not set", fld.FullName())
+			}
+			return ""
+		}
+	}
+	info.err = walk(fd.ProtoReflect(), 0)
+	return info
+}
+
+// ---------------------------------------------------------------------------
+// spans
+// ---------------------------------------------------------------------------
+
+type srcText struct {
+	text     string
+	lines    []int // start offset of each line
+	comments []string
+}
+
+func newSrcText(text string) *srcText {
+	s := &srcText{text: text, lines: []int{0}, comments: sourceComments(text)}
+	for i := 0; i < len(text); i++ {
+		if text[i] == '\n' {
+			s.lines = append(s.lines, i+1)
+		}
+	}
+	return s
+}
+
+// offsetOf maps a zero-based (line, column) to a byte offset; ok=false if the
+// position is not a character boundary of that line (or outside the file).
+func (s *srcText) offsetOf(line, col int32) (int, bool) {
+	if line < 0 || int(line) >= len(s.lines) || col < 0 {
+		return 0, false
+	}
+	start := s.lines[line]
+	end := len(s.text)
+	if int(line)+1 < len(s.lines) {
+		end = s.lines[line+1] - 1 // the newline itself is not addressable as a start, but is the end-of-line position
+	}
+	c := 0
+	i := start
+	for {
+		if c == int(col) {
+			return i, true
+		}
+		if i >= end || c > int(col) {
+			return 0, false
+		}
+		if s.text[i] == '\t' {
+			c += 8 - c%8
+			i++
+		} else {
+			_, n := utf8.DecodeRuneInString(s.text[i:])
+			c++
+			i += n
+		}
+	}
+}
+
+func checkSpan(s *srcText, span []int32) string {
+	var sl, sc, el, ec int32
+	switch len(span) {
+	case 3:
+		sl, sc, el, ec = span[0], span[1], span[0], span[2]
+	case 4:
+		sl, sc, el, ec = span[0], span[1], span[2], span[3]
+	default:
+		return fmt.Sprintf("span has %d elements", len(span))
+	}
+	if len(span) == 4 && sl == el {
+		// descriptor.proto: the end line is omitted when equal to the start line; not an error of range, observed only
+	}
+	so, ok := s.offsetOf(sl, sc)
+	if !ok {
+		return "start is not a position inside the file"
+	}
+	eo, ok := s.offsetOf(el, ec)
+	if !ok {
+		return "end is not a position inside the file"
+	}
+	if el < sl || (el == sl && ec < sc) || eo < so {
+		return "end before start"
+	}
+	return ""
+}
+
+// ---------------------------------------------------------------------------
+// checks
+// ---------------------------------------------------------------------------
+
+func locComments(l *descriptorpb.SourceCodeInfo_Location) []string {
+	var out []string
+	if l.LeadingComments != nil {
+		out = append(out, l.GetLeadingComments())
+	}
+	if l.TrailingComments != nil {
+		out = append(out, l.GetTrailingComments())
+	}
+	return append(out, l.LeadingDetachedComments...)
+}
+
+func c23WellFormed(r *vlib.Run, id, mode string, dec *descriptorpb.FileDescriptorProto, types gen.TypeResolver, st *srcText, locs []*descriptorpb.SourceCodeInfo_Location, text string) {
+	ncomments, noptlocs := 0, 0
+	seen := map[string]bool{}
+	viol := func(kind, sig string, l *descriptorpb.SourceCodeInfo_Location, extra map[string]any) {
+		if seen[kind+sig] {
+			return
+		}
+		seen[kind+sig] = true
+		w := map[string]any{"file": dec.GetName(), "mode": mode, "path": l.GetPath(), "span": l.GetSpan(), "source": text}
+		for k, v := range extra {
+			w[k] = v
+		}
+		r.Violation(kind, sig, id, w)
+	}
+	if len(locs) == 0 {
+		r.Eval("")
+		r.Violation("c23.no-source-info", "no locations at all", id, map[string]any{"file": dec.GetName(), "source": text})
+		return
+	}
+	for _, l := range locs {
+		pi := resolvePath(dec, types, l.Path)
+		if pi.optsAt >= 0 && len(l.Path) > pi.optsAt {
+			noptlocs++
+		}
+		if pi.err != "" {
+			viol("c23.path-unresolved", pathClass(dec, l.Path, pi), l, map[string]any{"why": pi.err})
+		} else if pi.unsetEnd {
+			r.Class("observed: path ends at an unpopulated singular field: " + elementOfPath(l.Path))
+		}
+		if e := checkSpan(st, l.Span); e != "" {
+			viol("c23.span-malformed", e, l, nil)
+		}
+		for _, c := range locComments(l) {
+			ncomments++
+			for _, line := range strings.Split(c, "\n") {
+				if line == "" {
+					continue
+				}
+				if !strings.Contains(text, line) {
+					viol("c23.comment-not-from-source", "a comment line is not a substring of the source", l, map[string]any{"comment": c, "line": line})
+					continue
+				}
+				in := false
+				for _, sc := range st.comments {
+					if strings.Contains(sc, line) {
+						in = true
+						break
+					}
+				}
+				if !in {
+					viol("c23.comment-not-from-source", "a comment line is not text of any comment of the source", l, map[string]any{"comment": c, "line": line})
+				}
+			}
+		}
+	}
+	key := ""
+	if ncomments > 0 && noptlocs > 0 {
+		key = text + "\x00" + mode
+	}
+	r.Eval(key)
+	r.ClassN(mode+": locations checked", int64(len(locs)))
+	r.ClassN(mode+": comments checked", int64(ncomments))
+	r.ClassN(mode+": locations inside options", int64(noptlocs))
+}
+
+// pathClass is a stable description of where an unresolvable path points.
+func pathClass(fd *descriptorpb.FileDescriptorProto, path []int32, pi pathInfo) string {
+	// walk names as far as they resolve
+	var parts []string
+	var md protoreflect.MessageDescriptor = fd.ProtoReflect().Descriptor()
+	for i := 0; i < len(path) && md != nil; i++ {
+		f := md.Fields().ByNumber(protoreflect.FieldNumber(path[i]))
+		if f == nil {
+			if isOptionsMsg(md) || md.ExtensionRanges().Len() > 0 {
+				parts = append(parts, "(ext)")
+				md = nil
+				break
+			}
+			parts = append(parts, "?")
+			break
+		}
+		parts = append(parts, string(f.Name()))
+		if f.IsList() || f.IsMap() {
+			i++
+		}
+		md = f.Message()
+		if md != nil && !strings.HasPrefix(string(md.FullName()), "google.protobuf.") {
+			parts = append(parts, "…")
+			break
+		}
+	}
+	why := pi.err
+	if k := strings.Index(why, ": "); k >= 0 && strings.HasPrefix(why, "component") {
+		why = why[k+2:]
+	}
+	return strings.Join(parts, ".") + ": " + gen.ClassifyErr(why)
+}
+
+func sameSpan(a, b []int32) bool {
+	if len(a) != len(b) {
+		return false
+	}
+	for i := range a {
+		if a[i] != b[i] {
+			return false
+		}
+	}
+	return true
+}
+
+// c23CommentsOnly: `more` (an extra-comments mode) must have exactly the
+// (path, span) sequence of `std` and may only add comments.
+func c23CommentsOnly(r *vlib.Run, id, rel string, std, more []*descriptorpb.SourceCodeInfo_Location, text string) {
+	r.Eval(text + "\x00" + rel)
+	w := func(extra map[string]any) map[string]any {
+		m := map[string]any{"relation": rel, "source": text}
+		for k, v := range extra {
+			m[k] = v
+		}
+		return m
+	}
+	if len(std) != len(more) {
+		r.Violation("c23.extra-comments-changes-locations", rel+": number of locations differs", id, w(map[string]any{"standard": len(std), "extra": len(more)}))
+		return
+	}
+	seen := map[string]bool{}
+	added := 0
+	for i := range std {
+		a, b := std[i], more[i]
+		if !sameSpan(a.Path, b.Path) || !sameSpan(a.Span, b.Span) {
+			r.Violation("c23.extra-comments-changes-locations", rel+": (path, span) sequence differs", id, w(map[string]any{"index": i, "standard": fmt.Sprint(a.Path, a.Span), "extra": fmt.Sprint(b.Path, b.Span)}))
+			return
+		}
+		report := func(sig string, what string) {
+			if seen[sig] {
+				return
+			}
+			seen[sig] = true
+			r.Violation("c23.extra-comments-loses-comment", rel+": "+sig, id, w(map[string]any{"path": a.Path, "span": a.Span, "what": what,
+				"standard location": fmt.Sprint(a), "extra-comments location": fmt.Sprint(b), "element": elementOfPath(a.Path)}))
+		}
+		if a.LeadingComments != nil && (b.LeadingComments == nil || a.GetLeadingComments() != b.GetLeadingComments()) {
+			report("a leading comment of standard mode is missing or different ("+elementOfPath(a.Path)+")", "leading")
+		}
+		if a.TrailingComments != nil && (b.TrailingComments == nil || a.GetTrailingComments() != b.GetTrailingComments()) {
+			report("a trailing comment of standard mode is missing or different ("+elementOfPath(a.Path)+")", "trailing")
+		}
+		// detached comments of standard mode must all still be there, in order
+		j := 0
+		for _, d := range a.LeadingDetachedComments {
+			found := false
+			for ; j < len(b.LeadingDetachedComments) && !found; j++ {
+				found = b.LeadingDetachedComments[j] == d
+			}
+			if !found {
+				report("a detached comment of standard mode is missing or different ("+elementOfPath(a.Path)+")", "detached")
+				break
+			}
+		}
+		added += len(locComments(b)) - len(locComments(a))
+	}
+	r.ClassN(rel+": comments added", int64(added))
+}
+
+// elementOfPath names the kind of descriptor element a path addresses (field
+// names of descriptor.proto, indices dropped) — stable across inputs.
+func elementOfPath(path []int32) string {
+	var md protoreflect.MessageDescriptor = (&descriptorpb.FileDescriptorProto{}).ProtoReflect().Descriptor()
+	var parts []string
+	for i := 0; i < len(path) && md != nil; i++ {
+		f := md.Fields().ByNumber(protoreflect.FieldNumber(path[i]))
+		if f == nil {
+			parts = append(parts, "(ext)")
+			break
+		}
+		parts = append(parts, string(f.Name()))
+		if f.IsList() {
+			i++
+		}
+		md = f.Message()
+	}
+	// keep the last two components: enough to tell a group's nested_type from a field
+	if len(parts) > 2 {
+		parts = parts[len(parts)-2:]
+	}
+	return strings.Join(parts, ".")
+}
+
+// c23LocationsOnly: `more` (an extra-option-locations mode) must contain the
+// locations of `std` unchanged and in order; what it adds must lie inside
+// option values.
+func c23LocationsOnly(r *vlib.Run, id, rel string, dec *descriptorpb.FileDescriptorProto, types gen.TypeResolver, std, more []*descriptorpb.SourceCodeInfo_Location, text string) {
+	r.Eval(text + "\x00" + rel)
+	j := 0
+	added := 0
+	seen := map[string]bool{}
+	for _, b := range more {
+		if j < len(std) && proto.Equal(std[j], b) {
+			j++
+			continue
+		}
+		added++
+		pi := resolvePath(dec, types, b.Path)
+		if pi.optsAt < 0 || len(b.Path) < pi.optsAt+2 {
+			sig := rel + ": an added location is not inside an option value (" + elementOfPath(b.Path) + ")"
+			if !seen[sig] {
+				seen[sig] = true
+				next := "none"
+				if j < len(std) {
+					next = fmt.Sprint(std[j])
+				}
+				r.Violation("c23.extra-locations-outside-options", sig, id, map[string]any{"relation": rel, "added location": fmt.Sprint(b), "next unmatched standard location": next, "source": text})
+			}
+		}
+	}
+	if j != len(std) {
+		r.Violation("c23.extra-locations-loses-location", rel+": a location of the base mode is missing, changed or out of order ("+elementOfPath(std[j].Path)+")", id,
+			map[string]any{"relation": rel, "first unmatched base location": fmt.Sprint(std[j]), "matched": j, "of": len(std), "source": text})
+	}
+	r.ClassN(rel+": locations added", int64(added))
 }
